@@ -1,0 +1,25 @@
+//go:build verif
+
+// Contracts for package stream_echo, checked by /verif (bfvc). Comment-only.
+package stream_echo
+
+// C34: the echo handler only takes streams it is configured for.
+// Config invariant (established by NewController): conf != nil, conf.ProtocolId != "".
+
+//@ func NewController
+//@   noframe
+//@   requires conf != nil
+//@   ensures ret1 == nil ==> ret0 != nil && ret0.conf != nil && ret0.conf.ProtocolId != ""
+
+//@ func (*Controller).resolveHandleMountedStream
+//@   noframe
+//@   requires c.conf != nil && c.conf.ProtocolId != ""
+//@   ensures ret0 != nil ==> dir.HandleMountedStreamProtocolID() == c.conf.ProtocolId
+//@   ensures ret0 != nil ==> c.localPeerID == "" || dir.HandleMountedStreamLocalPeerID() == c.localPeerID
+
+//@ func (*Controller).HandleDirective
+//@   noframe
+//@   requires c.conf != nil && c.conf.ProtocolId != ""
+//@   ensures ret0 != nil ==> implements(di.GetDirective(), link.HandleMountedStream)
+//@   ensures ret0 != nil ==> as(di.GetDirective(), link.HandleMountedStream).HandleMountedStreamProtocolID() == c.conf.ProtocolId
+//@   ensures ret0 != nil ==> c.localPeerID == "" || as(di.GetDirective(), link.HandleMountedStream).HandleMountedStreamLocalPeerID() == c.localPeerID
